@@ -207,6 +207,7 @@ def compute_ecc_hash_from_string(string, ecc_manager, hasher, max_block_size, re
 
 def ecc_correct_intra_stream(ecc_manager_intra, ecc_params_intra, hasher_intra, resilience_rate_intra, field, ecc, entry_pos, enable_erasures=False, erasures_char="\x00", only_erasures=False, max_block_size=65535):
     """ Correct an intra-field with its corresponding intra-ecc if necessary """
+    if ecc_params_intra["ecc_size"] <= 0: return (field, False, True, '') # the intra rate is so low that no ecc symbol at all is generated for this block size: there is nothing to check the field against (the reading loop below, bounded by the empty ecc, would drop the whole field)
     # convert strings to _StringIO object so that we can trick our ecc reading functions that normally works only on files
     fpfile = BytesIO(b(field))
     fpfile_ecc = BytesIO(b(ecc))
